@@ -62,18 +62,28 @@ DiagProvide ==
 
 (* ---- persist ----------------------------------------------------------- *)
 ModelDst(d) == WalkLoc(L.fs, Run(L.fs, Walk(Top, d, TRUE)))
-DstAgrees   == \A loc \in Rng(Ev.written) : \E d \in Rng(Ev.dsts) : ModelDst(d) = loc   \* every file really
+DstAgrees   == Ev.seq # "single" \/           \* (after a first spec wrote, the tree is no longer the layout's)
+               \A loc \in Rng(Ev.written) : \E d \in Rng(Ev.dsts) : ModelDst(d) = loc   \* every file really
                                     \* written is where the model's walk puts one of the destination strings
-PersistOK   == DstAgrees /\ \A loc \in Rng(Ev.written) : UnderOut(L, loc)
+AllCopies   == \A i \in DOMAIN Ev.wtypes : Ev.wtypes[i] = "file"      \* what is persisted is a real copy
+PersistOK   == DstAgrees /\ (\A loc \in Rng(Ev.written) : UnderOut(L, loc)) /\ AllCopies
 
 DiagPersist ==
     IF ~DstAgrees THEN "R4.destination"
+    ELSE IF Ev.seq # "single" THEN          \* two specs persisted the same relative path, one after the other
+         (IF \E loc \in Rng(Ev.written) : ~UnderOut(L, loc)
+            THEN "WritesUnderOut:second-spec-same-path-wrote-outside-outdir:" \o Ev.seq
+            ELSE "WritesUnderOut:persisted-object-is-" \o (CHOOSE x \in Rng(Ev.wtypes) : x # "file") \o ":" \o Ev.seq)
+    ELSE IF \A loc \in Rng(Ev.written) : UnderOut(L, loc)
+         THEN "WritesUnderOut:persisted-object-is-" \o (CHOOSE x \in Rng(Ev.wtypes) : x # "file") \o ":saveas-" \o Ev.saveas
     ELSE "WritesUnderOut:written-outside-outdir:" \o
          (IF HasDots(Ev.path) THEN "relpath-dotdot" ELSE "relpath-plain") \o ":saveas-" \o Ev.saveas
 
 (* ---- fpersist (a factory's results persisted by the observer) ----------- *)
 DiagFPersist ==
     IF ~DstAgrees THEN "R4.destination"
+    ELSE IF \A loc \in Rng(Ev.written) : UnderOut(L, loc)
+         THEN "WritesUnderOut:persisted-object-is-" \o (CHOOSE x \in Rng(Ev.wtypes) : x # "file") \o ":" \o Ev.factory
     ELSE "WritesUnderOut:written-outside-outdir:" \o Ev.factory \o ":saveas-" \o Ev.saveas
 
 (* ---- collect (deny list) ------------------------------------------------ *)
@@ -94,6 +104,7 @@ DiagCollect ==
     (CASE Ev.items[i].cls = "blank" -> ":blank-in-path"
        [] Ev.items[i].cls = "meta"  -> ":regex-chars"
        [] Ev.items[i].cls = "deep"  -> ":deep-path-argument"
+       [] Ev.items[i].cls = "digit-name" -> ":digit-in-name"
        [] OTHER -> "")
 
 (* ------------------------------------------------------------------------ *)
